@@ -173,13 +173,13 @@ void ldb_buffer_append(ldb_buffer_t *z, const uint8_t *xp, size_t xn) {
 
 ldb_comparator_t g_cmp;      /* the iterator's comparator */
 ldb_comparator_t g_ucmp;     /* its user comparator when it is an internal-key comparator */
-int g_cmp_calls, g_last_cmp; const ldb_slice_t *g_last_x, *g_last_y;   /* the most recent comparison */
+int g_cmp_calls, g_last_cmp; const ldb_slice_t *g_last_x, *g_last_y;   /* g_cmp_calls: 0/1 flag "compared at least once"; the most recent comparison */
 #define SLICE_READABLE(x) ((x)->size == 0 || (x)->data == g_keystore || __CPROVER_r_ok((x)->data, (x)->size))
 static int stub_compare(const ldb_comparator_t *c, const ldb_slice_t *x, const ldb_slice_t *y) {
   __CPROVER_assert(c == &g_cmp, "comparator: called with the iterator's comparator");
   __CPROVER_assert(SLICE_READABLE(x), "comparator: left operand is a readable slice");
   __CPROVER_assert(SLICE_READABLE(y), "comparator: right operand is a readable slice");
-  g_cmp_calls++; g_last_x = x; g_last_y = y; g_last_cmp = nondet_int();
+  g_cmp_calls = 1; g_last_x = x; g_last_y = y; g_last_cmp = nondet_int();
   return g_last_cmp;
 }
 
@@ -519,7 +519,7 @@ __CPROVER_ensures(IT_INVALID_OUTCOME(iter))
 /* an internal-key iterator rejects a target without the 8-byte trailer */
 __CPROVER_ensures(!(iter->comparator->user_comparator != NULL && target->size < 8) || IT_IS_CORRUPT(iter))
 /* a valid result: the last thing seek did was to compare the current key with the target, and it was >= target */
-__CPROVER_ensures(!(iter->current < iter->restarts) || (g_cmp_calls > 0 && g_last_x == &iter->key && g_last_y == target && g_last_cmp >= 0 &&
+__CPROVER_ensures(!(iter->current < iter->restarts) || (g_cmp_calls == 1 && g_last_x == &iter->key && g_last_y == target && g_last_cmp >= 0 &&
                   iter->status == __CPROVER_old(iter->status)))
 ;
 void h_blockiter_seek(void) {
